@@ -365,6 +365,17 @@ example : RWRow.ok ⟨"ThinPlateSplines", .tps, "", ["_target", "l", "min_singul
     ["_target", "v", "y", "coefficients"], ["v"], ["_source", "_target", "coefficients", "k", "kernel", "l",
     "min_singular_val", "p", "v", "y"]⟩ = false := by decide
 
+/-- harmless variants are accepted: an instance attribute the re-fit never touches need not be known to the model;
+the TPS right-hand-side scratch may live in locals instead of the attributes `v`, `y` -/
+example : RWRow.ok ⟨"AlignmentTranslation", .translation, "", ["_target", "_source", "_h_matrix"],
+    ["_target", "_h_matrix"], ["_h_matrix"], ["_h_matrix", "_n_dims", "_source", "_target"]⟩ = true := by decide
+example : RWRow.ok ⟨"ThinPlateSplines", .tps, "", ["_target", "l", "min_singular_val"],
+    ["_target", "coefficients"], [], ["_source", "_target", "coefficients", "k", "kernel", "l",
+    "min_singular_val", "p"]⟩ = true := by decide
+/-- … an unknown attribute that IS read is not -/
+example : RWRow.ok ⟨"AlignmentTranslation", .translation, "", ["_target", "_source", "_h_matrix", "_cache"],
+    ["_target", "_h_matrix"], ["_h_matrix"], ["_cache", "_h_matrix", "_source", "_target"]⟩ = false := by decide
+
 /-! non-vacuity of the hypotheses of the heap theorems: a legal run with a caller write on the construction-time
 target object and a `set_target` with that same object -/
 example : ∃ st, hBuild fixed W .translation {} wHeapA 0 1 = .ok st ∧
